@@ -49,6 +49,8 @@ class ExprMixin:
             return v
         if self.spec_depth and name == "result":
             return self.result
+        if self.spec_depth and name == "bK" and getattr(self, "gen_specs", None):
+            return VInt(self.gen_specs["bK"])
         if self.spec_depth and name in ("True", "False"):
             return VBool(name == "True")
         return self.resolve_global(name, node)
